@@ -19,6 +19,7 @@ func EnumSmall(maxN int, visit func(*Case)) {
 	for _, b := range []int{1, 2, 3} {
 		cfgs = append(cfgs, cfg{"sqlite-batched", b, 0})
 	}
+	cfgs = append(cfgs, cfg{"sqlitemem", 0, 0}, cfg{"sqlitemem-batched", 1, 0}, cfg{"sqlitemem-batched", 3, 0})
 	for _, ch := range []int{1, 60, 0} {
 		cfgs = append(cfgs, cfg{"durable", 0, ch})
 	}
